@@ -247,6 +247,23 @@ func runC16(r *Run) {
 	docs := makeDocs([]any{nil})
 	refSweep(r, "methods-vs-reference", paths, docs, cfgs)
 
+	// json.Number spellings with a fraction or exponent exactly at the int32 / int64 limits, and values whose
+	// rounding lands exactly on 10^precision (one digit too many)
+	var lp []Path
+	for _, m := range []string{"integer", "bigint", "double", "number", "abs", "floor", "ceiling", "string"} {
+		lp = append(lp, Path{E: eVar("a", sMethod(m))}, Path{Strict: true, E: eVar("a", sMethod(m))})
+	}
+	for _, ps := range [][2]int64{{2, 1}, {2, 0}, {2, 2}, {3, 2}, {3, 0}, {1, 0}, {1, 1}, {4, 3}} {
+		p0, s0 := ps[0], ps[1]
+		lp = append(lp, Path{E: eVar("a", sDecimal(&p0, &s0))})
+	}
+	var lcfgs []sweepCfg
+	for _, v := range []string{"n:-9223372036854775808.0", "n:-9.223372036854775808e18", "n:9223372036854775807.0", "n:9.223372036854775807e18", "n:-9223372036854775809.0", "n:-2147483648.0", "n:2147483647.0",
+		"n:2.147483647e9", "n:-2.147483648e9", "n:2147483647.4", "n:2147483647.5", "n:-2147483648.5", "n:-2147483648.4", "f:-9223372036854775808", "f:9223372036854775808",
+		"f:9.99", "f:99.5", "f:0.995", "f:9.995", "f:-9.99", "f:999.5", "f:9.5", "f:0.95", "n:9.99", "s:99.5", "f:9.94", "f:99.4", "f:-0.995", "f:0.9995"} {
+		lcfgs = append(lcfgs, sweepCfg{Num: "float64", Vars: map[string]string{"a": v}}, sweepCfg{Num: "float64", Vars: map[string]string{"a": v}, Silent: true})
+	}
+	refSweep(r, "limit-spellings-and-precision-carries", lp, docs, lcfgs)
 	// method arguments in every integer spelling denote the same call: relation between two real executions
 	spell := func(v int64) []string {
 		neg, a := "", v
